@@ -61,17 +61,24 @@ def ev(kind, **kw):
         return kw["seq"]
 
 
+_epoch = [0]
+
+
 def reset_log():
     with LOCK:
         LOG.clear()
         for ex in list(EXECS.values()):
             ex.close()
         EXECS.clear()
+        # nodes of an earlier, failed execution may still be finishing in the background: their events carry an
+        # older token and are filtered out of later snapshots
+        _epoch[0] = next(_ids)
 
 
 def snapshot():
     with LOCK:
-        return list(LOG)
+        ep = _epoch[0]
+        return [e for e in LOG if e.get("token") is None or e["token"] >= ep]
 
 
 class Exec:
@@ -165,11 +172,15 @@ class Exec:
         return False
 
 
-def cur_exec():
+def cur_token():
     tok = CTX.get()
     if tok is None:
         tok = getattr(TLS, "token", None)
-    return EXECS.get(tok)
+    return tok
+
+
+def cur_exec():
+    return EXECS.get(cur_token())
 
 
 # ------------------------------------------------------------------------------------------------
@@ -534,7 +545,8 @@ def install_tawazi_hooks():
         if ex is not None and fid is not None:
             ex.fut_node[fid] = self.id
         REACH["XENTER"] += 1
-        ev("XENTER", token=ex.token if ex else None, node=self.id, fut=None if inline else fid, inline=inline)
+        tok = cur_token()
+        ev("XENTER", token=tok, node=self.id, fut=None if inline else fid, inline=inline)
         if inline and Settings.controlled and not ex.bypassed and not ex.closed:
             _inline_control(ex)
         prev = getattr(TLS, "node", None)
@@ -542,10 +554,10 @@ def install_tawazi_hooks():
         try:
             r = orig_execute(self, results, profiles)
         except BaseException as e:
-            ev("XEXIT", token=ex.token if ex else None, node=self.id, ok=False, exc=type(e).__name__)
+            ev("XEXIT", token=tok, node=self.id, ok=False, exc=type(e).__name__)
             raise
         else:
-            ev("XEXIT", token=ex.token if ex else None, node=self.id, ok=True)
+            ev("XEXIT", token=tok, node=self.id, ok=True)
             return r
         finally:
             TLS.node = prev
